@@ -337,6 +337,8 @@ class ObjRun:
                     self.op_model_apply(op)
                 elif k == "mutate_copy":
                     self.op_mutate_copy(target, op)
+                elif k == "compose":
+                    self.op_compose(target, op)
             except core.SimCrash:
                 ctx.count("ops_crashed_by_fault")
             finally:
@@ -491,6 +493,46 @@ class ObjRun:
                 ctx.violate("C01", "wrong_value", {"engine": "objhist", "obj_class": type(obj).__name__,
                                                    "how": "kw", "graph": self.sc["graph"]["graph"]}, got=w, expected=self.total)
 
+    def op_compose(self, o, op):
+        """use a derived, fully specified distribution as a component of a *new* joint and condition that joint a few
+        times (a reduced conditional re-used in a larger model): the derived object must stay what it was"""
+        from cuqi.distribution import Distribution, Posterior, JointDistribution, Gaussian
+
+        def eligible(p):
+            ob = p.obj
+            if not isinstance(ob, Distribution) or isinstance(ob, (Posterior, JointDistribution)) or p.kind == "model":
+                return False
+            try:
+                return not ob.is_cond
+            except Exception:
+                return False
+        if not eligible(o):
+            # prefer a distribution that was itself produced by a reduction (it carries the constants of the variables
+            # fixed on the way), else any unconditional distribution in the pool
+            cands = [p for p in self.pool if eligible(p) and p.path] or [p for p in self.pool if eligible(p)]
+            if not cands:
+                return
+            o = cands[int(op.get("times", 3)) % len(cands)]
+        obj = o.obj
+        try:
+            if obj.is_cond:
+                return
+            w = Gaussian(np.zeros(2), 1.0, name="w_extra")
+            J2 = JointDistribution(obj, w)
+        except Exception:
+            return
+        self.ctx.fault("composed_into_new_joint")
+        for i in range(int(op.get("times", 3))):
+            try:
+                r = J2(w_extra=np.array([0.5, -0.25]) * (1 + 0.1 * i))
+                if hasattr(r, "get_parameter_names"):
+                    r.get_parameter_names()
+            except core.SimCrash:
+                raise
+            except Exception:
+                break
+        self.ctx.hit("derived_object_reused_in_new_joint")
+
     def op_mutate_copy(self, o, op):
         """NOT GENERATED (kept for experiments only).  Explicit setters on a derived object are not "conditioning,
         evaluating or sampling" (soundness rule 5): e.g. Likelihood.enable_FD() documentedly delegates to the shared
@@ -578,8 +620,10 @@ def gen_case(r, tier):
             ops.append({"op": "sampler", "on": on, "sampler": r.choice(["MH", "LinearRTO", "legacyMH", "HybridGibbs"])})
         elif x < 0.90:
             ops.append({"op": "special", "on": on, "what": r.choice(["to_likelihood", "stacked"])})
-        elif x < 0.94:
+        elif x < 0.915:
             ops.append({"op": "model_apply", "pick": r.randrange(1000)})
+        elif x < 0.94:
+            ops.append({"op": "compose", "on": on, "times": r.choice([1, 3, 10])})
         else:
             ops.append({"op": "fault", "tag": r.choice(TAGS[g]), "k": r.randint(0, 6), "kind": r.choice(["raise", "nan"])})
     return {"scenario": sc, "ops": ops}
